@@ -16,7 +16,8 @@ Fixpoint run_peer (s : nn) (ops : list op) : list V :=
   | [] => []
   | o :: r =>
       let '(s', out, fs) := nstep s o [] in
-      VL [VS (coarse (o_status out)); VLm V_firing fs; VB (n_flag s'); VZ (sig_Z (p_sig (n_pc s')))]
+      VL [VS (if n_panicked s' then "panic" else coarse (o_status out)); VLm V_firing fs; VB (n_flag s');
+          VZ (sig_Z (p_sig (n_pc s')))]
       :: run_peer s' r
   end.
 
